@@ -175,6 +175,14 @@ func (c *Ctx) failureExits(fn *ssa.Function, l *natLoop, call ssa.CallInstructio
 		}
 	}
 	results = append(results, v)
+	// with an error result the error is the failure channel: further boolean or
+	// numeric results are data (e.g. "reached the end of this part")
+	hasErrResult := false
+	for _, res := range results {
+		if isErrorType(res.Type()) {
+			hasErrResult = true
+		}
+	}
 	tested := false
 	for _, b := range fn.Blocks {
 		if !l.body[b.Index] || len(b.Succs) != 2 {
@@ -212,7 +220,7 @@ func (c *Ctx) failureExits(fn *ssa.Function, l *natLoop, call ssa.CallInstructio
 					}
 					continue
 				}
-			case res.Type().String() == "bool":
+			case res.Type().String() == "bool" && !hasErrResult:
 				core, neg := ir.Peel(ifi.Cond)
 				if core == res {
 					failSucc = b.Succs[1]
